@@ -373,9 +373,9 @@ def stat_case(env, func, nd=None, extra=None, maxrows=8):
     return cb.Case(dims, ishape, fact, w, rnd.random() < 0.5, fmt, func, p)
 
 
-def gen_c18(env, tier):
+def gen_c18(env, tier, n_cases=None, prop="C18"):
     rnd = env.rnd
-    n_cases = 7000 if tier == "quick" else 80000
+    n_cases = n_cases or (7000 if tier == "quick" else 80000)
     for _ in range(n_cases):
         func = rnd.choice(cb.STATS)
         if rnd.random() < 0.1 and func not in ("wquantile",):
@@ -385,17 +385,17 @@ def gen_c18(env, tier):
         else:
             case = stat_case(env, func)
         if func == "wquantile":
-            run_wquantile(env, case)
+            run_wquantile(env, case, prop)
         else:
-            env.run_xcube("C18", case)
+            env.run_xcube(prop, case)
 
 
-def gen_c18_shared(env, tier):
+def gen_c18_shared(env, tier, n=None, prop="C18"):
     """two statistics on the same argument objects, the second one after the first: a weighted stddev (weights with
     missing values, facts with values hidden under a False validity) followed by min / max / quantile / stddev of the
     very same fact array"""
     rnd = env.rnd
-    for _ in range(150 if tier == "quick" else 3000):
+    for _ in range(n or (150 if tier == "quick" else 3000)):
         first = stat_case(env, "stddev")
         if first.fact["dtype"] != "float":
             continue
@@ -405,7 +405,7 @@ def gen_c18_shared(env, tier):
             first.weights = None
         if first.weights is not None:
             first.weights["valid"] = [rnd.random() > 0.4 for _ in range(first.n)]
-        env.run_xcube("C18", first, dtype=np.int64)
+        env.run_xcube(prop, first, dtype=np.int64)
         func = rnd.choice(["max", "min", "quantile", "stddev"])
         fact = dict(first.fact)
         if func in ("max", "min"):
@@ -418,13 +418,13 @@ def gen_c18_shared(env, tier):
             continue
         second.share_args_with(first)
         second._wa, second._wa_built = None, True
-        env.run_xcube("C18", second, dtype=np.int64, note="second statistic on the same fact object")
+        env.run_xcube(prop, second, dtype=np.int64, note="second statistic on the same fact object")
 
 
-def run_wquantile(env, case):
+def run_wquantile(env, case, prop="C18"):
     """weighted quantile: the evaluation is repeated with all weights multiplied by 3, by 2^-30 and by 2^30 (exact
     in binary floating point); every cell must come out the same (rescaling invariance)"""
-    env.run_xcube("C18", case)
+    env.run_xcube(prop, case)
     ev_ids = [t for t, m in env.rec.meta.items() if m["group"] == env.rec.group]
     by_tid = {e["tid"]: e for e in env.rec.events}
     for factor in (3, Fraction(1, 2 ** 30), 2 ** 30):
@@ -434,7 +434,7 @@ def run_wquantile(env, case):
         rec2 = cb.CubeRecorder()
         saved, env.rec = env.rec, rec2
         try:
-            env.run_xcube("C18", c2)
+            env.run_xcube(prop, c2)
         finally:
             env.rec = saved
         for t, e2 in zip(ev_ids, rec2.events):
@@ -560,8 +560,25 @@ def gen_reuse(env, tier, prop):
             c16.record_outputs(env, prop, r, out)
 
 
+def gen_stacked(env, tier, prop, n=None):
+    """the same shared aggregate on BOTH cubes over dimensions that carry extra axes - several such dimensions at once,
+    in any position (an array cube walks its sub-cubes over views of one strided copy of every dimension)"""
+    rnd, gen = env.rnd, env.gen
+    shapes = [(2,), (3,), (2,), (4,), (2, 3), (3, 2), (1, 4), (2, 1)]
+    for _ in range(n or (250 if tier == "quick" else 4000)):
+        nd = rnd.choice([2, 2, 3])
+        extra = [rnd.choice(shapes) if rnd.random() < 0.7 else () for _ in range(nd)]
+        if sum(1 for e in extra if e) < 2:
+            a, b = rnd.sample(range(nd), 2)
+            extra[a], extra[b] = rnd.choice(shapes[:4]), rnd.choice(shapes)
+        case = gen.shared_case(rnd.choice(cb.SHARED), nd=nd, maxrows=6, extra=extra)
+        env.run_xcube(prop, case, note="stacked on both cubes")
+        env.run_ccube(prop, case, note="stacked on both cubes")
+
+
 def gen_c03_all(env, tier):
     gen_c03(env, tier)
+    gen_stacked(env, tier, "C03")
     gen_live(env, tier, "C03")
     gen_live(env, tier, "C03", with_axes=True)
     gen_reuse(env, tier, "C03")
@@ -720,6 +737,7 @@ def gen_c14_all(env, tier):
 def gen_c04_all(env, tier):
     gen_c04(env, tier)
     gen_wide(env, tier, "C04")
+    gen_reuse(env, tier, "C04")          # a function object used on a second cube: which cells are missing is a fact about that cube
     from . import c13
     c13.pooled_blocks(env, tier, own="C04")          # the missing rule through the worker pool (scheduled threads)
 
